@@ -127,6 +127,7 @@ func (s *scenario) bind() {
 		}
 	}
 	s.rtcpOut = obs.NewRTCPGate(s.clk)
+	s.rtcpOut.Annotate = true // a writer that stores something in the attributes of each write
 	s.rtcpIn = obs.NewFeed(s.clk)
 	s.rtcpIn.NoLog = true
 	s.rtcpW = s.i.BindRTCPWriter(s.rtcpOut)
@@ -429,6 +430,12 @@ func run(c *vf.Case) {
 			}
 		}
 		s.checkTransportSequenceNumbers()
+		if n := s.rtcpOut.AttrReused.Load(); n > 0 {
+			// every RTCP write of the scenario's own goroutines passes a fresh map: a map that comes
+			// back carries state shared between the members' goroutines without synchronisation
+			c.Violation("shared-state/attributes-map-reused-across-rtcp-writes",
+				"interceptors %s: %d RTCP writes handed the next writer an Attributes map that an earlier write had already been given (what that writer stored in it was still there)", s.desc, n)
+		}
 		if !doClose {
 			s.checkConservation()
 			_ = s.i.Close()
